@@ -97,6 +97,14 @@ ExpandRep(defs, s, idx, cnt, env, ctx, path, fuel) ==
 
 Inline(prog) == Expand(prog.defs, prog.main, 1, <<>>, <<>>, <<>>, 12)
 
+\* a rep whose iterator is spelled like one of the program's constants (prog.consts): inside the rep's own arguments the name
+\* means the iterator; a program that has such a clash may be refused, it may not be assembled with the constant's value
+RepIters(stmts) == {stmts[i].it : i \in {j \in 1..Len(stmts) : stmts[j].k = "rep"}}
+IterConstClash(prog) ==
+    LET consts == {prog.consts[i] : i \in 1..Len(prog.consts)}
+        iters == RepIters(prog.main) \cup UNION {RepIters(prog.defs[d].body) : d \in 1..Len(prog.defs)}
+    IN consts \cap iters # {}
+
 WellFormed(inl) == \A k \in 1..Len(inl) : inl[k].k # "error"
 \* every expansion's local labels are renamed apart
 LabelDefs(inl) == {k \in 1..Len(inl) : inl[k].k = "label"}
